@@ -270,7 +270,7 @@ def _run_property(pid, sp, tier, seed, my_findings, tmpdir, t0):
                 env["VF_FAILDIR"] = faildir
                 cmd = [binpath, "-seed=%d" % (wseed & 0x7fffffff or 1), "-runs=%d" % tierval(job["runs"], tier),
                        "-max_total_time=%d" % tierval(job.get("max_time", (60, 600)), tier),
-                       "-max_len=%d" % tierval(job.get("max_len", 4096), tier), "-timeout=120", "-rss_limit_mb=4096",
+                       "-max_len=%d" % tierval(job.get("max_len", 4096), tier), "-timeout=60", "-rss_limit_mb=4096",
                        "-print_final_stats=1", "-artifact_prefix=" + faildir + "/", "-verbosity=0",
                        "-use_value_profile=1", "-len_control=20"]
                 if job.get("dict"):
@@ -318,6 +318,7 @@ def _run_property(pid, sp, tier, seed, my_findings, tmpdir, t0):
     exhaustive_parts = []
     raw_fails = []
     errors = []
+    inconclusive = []
     per_job = {}
     for r, ji in zip(results, jobinfo):
         res = r["res"]
@@ -333,6 +334,13 @@ def _run_property(pid, sp, tier, seed, my_findings, tmpdir, t0):
             except OSError:
                 pass
             cur = glob.glob(os.path.join(ji["faildir"], "crash-*")) + glob.glob(os.path.join(ji["faildir"], "current-*"))
+            if r["rc"] == -999:
+                # the worker ran into its wall-clock limit: inconclusive by itself (load, a stuck sanitizer runtime);
+                # the case it was executing is replayed under the CPU-time watchdog and counts only if it fails there
+                inconclusive.append("worker %d (%s) stopped at its wall-clock limit after %.0fs" % (ji["idx"], jk, r["wall"]))
+                if cur:
+                    raw_fails.append(dict(ji=ji, file=cur[0], sig="worker-timeout:%s" % ji["job"]["h"], cls="HANG", msg="worker hit its wall-clock limit while executing this case", trace="", soft=True))
+                continue
             if cur and r["rc"] not in (2,):
                 raw_fails.append(dict(ji=ji, file=cur[0], sig="process-died:%s" % ji["job"]["h"], cls="CRASH", msg="worker process died while executing this case (rc=%s after %.0fs): %s" % (r["rc"], r["wall"], tail[-600:])))
             else:
@@ -367,6 +375,10 @@ def _run_property(pid, sp, tier, seed, my_findings, tmpdir, t0):
             for a in arts:
                 f0 = fl[0] if fl else dict(sig="fuzz-crash", cls="CRASH", msg="libFuzzer artifact")
                 raw_fails.append(dict(ji=ji, file=a, sig=f0["sig"], cls=f0["cls"], msg=f0["msg"], trace=f0.get("trace", "")))
+            # a unit libFuzzer gave up on by wall clock is no verdict by itself (load noise); it becomes one only
+            # if the deterministic replay under the CPU-time watchdog fails too
+            for a in glob.glob(os.path.join(ji["faildir"], "timeout-*")):
+                raw_fails.append(dict(ji=ji, file=a, sig="fuzz-timeout", cls="HANG", msg="libFuzzer unit exceeded its wall-clock limit", trace="", soft=True))
         else:
             for f in res.get("fails", []):
                 fp = None
@@ -383,6 +395,7 @@ def _run_property(pid, sp, tier, seed, my_findings, tmpdir, t0):
 
     # ---- confirm failures by replay, dedupe by signature
     violations = []
+    soft_noise = []
     seen_sig = set()
     rdir = os.path.join(os.environ.get("VERIF_REPLAY_DIR", os.path.join(VERIF, "replays")), pid)
     for f in raw_fails:
@@ -414,6 +427,9 @@ def _run_property(pid, sp, tier, seed, my_findings, tmpdir, t0):
                         n_fail += 1
                         last = out
                 reps = "%d/3" % n_fail
+                if n_fail == 0 and f.get("soft"):
+                    soft_noise.append(os.path.basename(f["file"]))
+                    continue
                 if n_fail == 0:
                     errors.append("failure %s did not reproduce in replay (0/3) - harness state problem, not counted: %s" % (f["sig"], f["msg"][-300:]))
                     continue
@@ -469,6 +485,8 @@ def _run_property(pid, sp, tier, seed, my_findings, tmpdir, t0):
         jobs={k: dict(workers=v["workers"], evaluations=v["evaluations"], distinct_nontrivial=len(nt.get(k, ()))) for k, v in per_job.items()},
         build_seconds=round(build_s, 1),
         regression_inputs_replayed=len(regress),
+        fuzzer_wallclock_timeouts_not_reproduced_under_cpu_watchdog=len(soft_noise),
+        inconclusive_workers=inconclusive,
         exhaustive=False,
     )
     if enum_tot:
